@@ -265,6 +265,37 @@ def check_no_aliasing(cx: Cx, ob: Ob) -> None:
     d2(cx, ob)
     d3(cx, ob)
     deep_copies_are_deep(cx, ob)
+    loaders_copy_their_input(cx, ob)
+
+
+def loaders_copy_their_input(cx: Cx, ob: Ob) -> None:
+    """``Record(**d)`` validates - and thereby COPIES - the synonym lists it is given; ``Record.model_construct(**d)``
+    stores the caller's list objects as they are.  A loader that constructs records that way from its argument
+    makes every converter loaded from the same in-memory data share its synonym lists: a merge into one of them
+    (add_prefix / add_record with merge=True, chain) shows up in the records of the others, whose lookup tables
+    know nothing of it."""
+    ci = cx.model.cls("curies.api.Converter", ob.id)
+    for m in ci.methods.values():
+        if not m.is_classmethod or not m.name.startswith("from_") or len(m.params) < 2:
+            continue
+        s = cx.summary(m, ob.id)
+        data = ("param", m.params[1].name)
+        for t, ev, _ in s.all_terms():
+            for c in subterms(t):
+                if not (op(c) == "call" and op(c[1]) == "attr" and c[1][2] == "model_construct" and op(c[1][1]) == "cls" and c[1][1][1].endswith(".Record")):
+                    continue
+                vals = [v for _, v in c[3]] + list(c[2])
+                copied = all(any(op(y) == "call" and y[1] in (("builtin", "list"), ("builtin", "sorted"), ("builtin", "tuple")) or (op(y) == "call" and callee_name(y) in ("copy", "deepcopy")) for y in subterms(v)) for v in vals if isinstance(v, tuple) and op(v) not in ("const",))
+                if copied:
+                    ob.site(f"{where(m, ev.line)} {m.qualname}", "model_construct from copied values")
+                    continue
+                ob.violate(
+                    m.qualname,
+                    where(m, ev.line),
+                    f"{m.name} builds records with `{show(c)[:60]}` - no validation, so no copy: the synonym LISTS inside the caller's data become the records' own lists, and two converters loaded from the same in-memory data share them (a merge into one changes the records of the other behind its lookup tables)",
+                    witness="epm = [{...,'uri_prefix_synonyms': [...]}]; c1 = from_extended_prefix_map(epm); c2 = from_extended_prefix_map(epm); c1.add_prefix(..., merge=True): c2.records shows the new URI prefix, c2.compress does not know it",
+                    detail="construct-keeps-argument",
+                )
 
 
 @obligation("C10-D4", "no derivation mutates an argument object: no store into, deletion from or mutator call on a parameter (mappings, sequences or converters handed in may alias the caller's - even the input converter's own - tables)", floor=6)
